@@ -547,6 +547,9 @@ package kafka
 //@   ensures batch.conn == nil && batch.lock == nil
 //@   ensures batch.msgs != nil ==> batch.msgs.decompressed == nil
 //@   ensures batch.msgs != nil ==> batch.msgs.$drained
+// C02: closing a batch hands its position back to the connection WHATEVER the batch ended with (success, EOF, a broker
+// error after some records): the next fetch of this Conn starts after the records the batch delivered, not before them.
+//@   ensures old(batch.conn) != nil ==> old(batch.conn).offset == old(batch.offset)
 
 //@ property C18
 
